@@ -11,7 +11,7 @@ from vf.spec import build as B
 from vf.spec.strategies import Profile, file_specs
 from vf.props.e2e import spec_summary
 
-SOURCES = ('inline', 'dict', 'struct', 'hdf5')
+SOURCES = ('inline', 'dict', 'struct', 'hdf5', 'mixed')
 
 
 @st.composite
@@ -23,6 +23,10 @@ def strategy(draw):
     spec['write']['source'] = draw(st.sampled_from(SOURCES))
     spec['write']['opts'] = {'perm': draw(st.sampled_from([None, 'rev'])),
                              'extra': draw(st.lists(st.integers(0, 2), max_size=1))}
+    if spec['write']['source'] == 'mixed':
+        # some channels get their data at add_channel(), the others through the dict passed to write()
+        chans = [j for j, op in enumerate(spec['lfs'][0]['ops']) if op['t'] == 'channel']
+        spec['write']['opts']['inline_ops'] = [j for k, j in enumerate(chans) if k % 2 == draw(st.integers(0, 1))]
     spec['fail'] = draw(st.sampled_from([None, None, None, 'missing-dataset', 'bad-ocs']))
     return spec
 
